@@ -11,7 +11,8 @@ import Mathlib.Tactic.Positivity
   (`Model/Steps`; the steps stream compares returned points, recorded samples, side constraints,
   names and counters with the real steps for every option).
 * the real operation on a real function satisfies what was recorded (`real_sound` theorems below):
-  proximal step, linear-optimisation step, inexact gradient.
+  proximal step, linear-optimisation step, inexact gradient, exact line search (smooth functions), Bregman
+  gradient step.
 -/
 
 open RealInnerProductSpace
@@ -94,6 +95,61 @@ theorem inexact_gradient_real_sound (g d : E) (ε : ℝ) (hε : 0 ≤ ε) :
     have := pow_le_pow_left₀ (norm_nonneg _) h 2
     rw [mul_pow] at this; linarith
 
+/-- **exact line search, real side** (smooth functions, the setting of the shipped examples): if `x` minimises
+`f` over the affine subspace `x0 + span(dirs)` (in particular along every direction `d` of that subspace through
+`x`) and `f` satisfies the smoothness upper bound with its gradient `g`, then `⟪g x, d⟫ = 0` — the constraints
+`exact_linesearch_step` records for every direction and for `x − x0` -/
+theorem linesearch_real_sound (f : E → ℝ) (g : E → E) (L : ℝ) (hL : 0 < L)
+    (hsm : ∀ x y, f y ≤ f x + ⟪g x, y - x⟫ + L / 2 * ‖y - x‖ ^ 2)
+    (x d : E) (hmin : ∀ t : ℝ, f x ≤ f (x + t • d)) : ⟪g x, d⟫ = 0 := by
+  by_cases hd : d = 0
+  · subst hd; simp
+  have hdn : 0 < ‖d‖ ^ 2 := by positivity
+  set c := ⟪g x, d⟫ with hc
+  -- the step t = -c / (L ‖d‖²) would decrease f strictly unless c = 0
+  set t := -c / (L * ‖d‖ ^ 2) with ht
+  have h1 := hmin t
+  have h2 := hsm x (x + t • d)
+  have e1 : x + t • d - x = t • d := by abel
+  rw [e1, real_inner_smul_right, norm_smul, mul_pow, Real.norm_eq_abs, sq_abs] at h2
+  have hLd : L * ‖d‖ ^ 2 ≠ 0 := ne_of_gt (mul_pos hL hdn)
+  have h3 : t * c + L / 2 * (t ^ 2 * ‖d‖ ^ 2) = -(c ^ 2) / (2 * (L * ‖d‖ ^ 2)) := by
+    rw [ht]; field_simp; ring
+  have h4 : 0 ≤ -(c ^ 2) / (2 * (L * ‖d‖ ^ 2)) := by
+    have : 0 ≤ t * c + L / 2 * (t ^ 2 * ‖d‖ ^ 2) := by linarith
+    rwa [h3] at this
+  have h5 : 0 < 2 * (L * ‖d‖ ^ 2) := by positivity
+  have h6 : 0 ≤ -(c ^ 2) := by
+    have := (div_nonneg_iff.mp h4)
+    rcases this with ⟨a, _⟩ | ⟨_, b⟩
+    · exact a
+    · linarith
+  have : c ^ 2 = 0 := le_antisymm (by linarith) (sq_nonneg c)
+  exact pow_eq_zero_iff (by norm_num) |>.mp this
+
+/-- **Bregman gradient (mirror / NoLips) step, real side**: if `x` minimises
+`y ↦ ⟪gx0, y⟫ + (1/γ)·D_h(y, x0)` with `D_h(y, x0) = h y − h x0 − ⟪sx0, y − x0⟫`, then `sx = sx0 − γ·gx0` is a
+subgradient of `h` at `x` — the sample `(x, sx0 − γ gx0, h(x))` that `bregman_gradient_step` records on the
+mirror map -/
+theorem bregman_gradient_real_sound (h : E → ℝ) (γ : ℝ) (hγ : 0 < γ) (gx0 sx0 x0 x : E)
+    (hmin : ∀ y, ⟪gx0, x⟫ + 1 / γ * (h x - h x0 - ⟪sx0, x - x0⟫) ≤ ⟪gx0, y⟫ + 1 / γ * (h y - h x0 - ⟪sx0, y - x0⟫)) :
+    ∀ y, h y ≥ h x + ⟪sx0 - γ • gx0, y - x⟫ := by
+  intro y
+  have h1 := hmin y
+  have e : ⟪sx0 - γ • gx0, y - x⟫ = ⟪sx0, y - x0⟫ - ⟪sx0, x - x0⟫ - γ * (⟪gx0, y⟫ - ⟪gx0, x⟫) := by
+    simp only [inner_sub_left, inner_sub_right, real_inner_smul_left]
+    ring
+  rw [e]
+  have h2 : γ * (⟪gx0, x⟫ + 1 / γ * (h x - h x0 - ⟪sx0, x - x0⟫)) ≤ γ * (⟪gx0, y⟫ + 1 / γ * (h y - h x0 - ⟪sx0, y - x0⟫)) :=
+    mul_le_mul_of_nonneg_left h1 hγ.le
+  have hne : γ ≠ 0 := ne_of_gt hγ
+  have e1 : γ * (⟪gx0, x⟫ + 1 / γ * (h x - h x0 - ⟪sx0, x - x0⟫)) = γ * ⟪gx0, x⟫ + (h x - h x0 - ⟪sx0, x - x0⟫) := by
+    field_simp
+  have e2 : γ * (⟪gx0, y⟫ + 1 / γ * (h y - h x0 - ⟪sx0, y - x0⟫)) = γ * ⟪gx0, y⟫ + (h y - h x0 - ⟪sx0, y - x0⟫) := by
+    field_simp
+  rw [e1, e2] at h2
+  linarith
+
 /-- non-vacuity of the formula layer: `x0 − ½ g` on concrete dictionaries, and the absolute
 inexact-gradient expression -/
 example : StepForm.gradStep [(0, 1)] (1 / 2) [(1, 1)] = [(0, 1), (1, -1 / 2)] ∧
@@ -105,3 +161,5 @@ end Pepit.C08
 #print axioms Pepit.C08.prox_real_sound
 #print axioms Pepit.C08.linopt_real_sound
 #print axioms Pepit.StepForm.den_gapI
+#print axioms Pepit.C08.linesearch_real_sound
+#print axioms Pepit.C08.bregman_gradient_real_sound
